@@ -88,14 +88,13 @@ impl<T: ?Sized> Mutex<T> {
                             break;
                         }
                         self.unlock();
-                    } else {
-                        // register
+                    } else if !b_ignore {
+                        // register, only when we really give up waiting
+                        // or the unlocker would pass the lock to others
+                        // while we still take it after the ignored cancel
                         cur.set_release();
                         // re-check unpark status
                         if cur.is_unparked() && cur.take_release() {
-                            if b_ignore {
-                                break;
-                            }
                             self.unlock();
                         }
                     }
